@@ -34,7 +34,7 @@ def run(ctx):
                 "gen2": dict(INITS="KeyInits", TARGETS="KeyTargets", STATUSES="KeyStatuses", FORMS="KeyForms",
                              METHODS="KeyMethods", MAXSET="{2}", EXHOPS=2, NSAMPLES=0, SAMPLEHOPS=1, ORIGINS="SetterOrigin"),
                 "gen4": dict(INITS="QuickInits", TARGETS="ChainTargets", STATUSES="ChainStatuses", FORMS="ChainForms",
-                             METHODS="KeyMethods", MAXSET="{3}", EXHOPS=3, NSAMPLES=0, SAMPLEHOPS=1, ORIGINS="SetterOrigin"),
+                             METHODS="KeyMethods", MAXSET="{3}", EXHOPS=2, NSAMPLES=0, SAMPLEHOPS=1, ORIGINS="SetterOrigin"),
                 "gen3": dict(INITS="OneInit", TARGETS="AllTargets", STATUSES="AllStatuses", FORMS="AllForms",
                              METHODS="KeyMethods", MAXSET="{1}", EXHOPS=1, NSAMPLES=0, SAMPLEHOPS=1, ORIGINS="AllOrigins")}
     for name, c in gens.items():
